@@ -693,6 +693,8 @@ class ConcCrashEngine(ConcEngine):
                                                         dict(detail, key=_jsonable(key), before=_jsonable(val),
                                                              after=_jsonable(post.get(key)))))
                         return
+                # (a pid that cannot be hashed is never bound: nothing to recover, every call on it is refused)
+                used = set(pi for pi in used if M.encodable(w.pids[pi]))
                 for pi in sorted(used):
                     o = post[("obj", pi)]
                     if o[0] == "ok":
